@@ -15,7 +15,7 @@ legs to_a and from_b of the same module: expected(a -> b)(x) = from_b(to_a(x)).
 The proofs are of bit-identity (stronger than the property's "within one ulp"); a solver counterexample is reported as a
 violation only when its native replay differs by MORE than one ulp, as the property allows.
 """
-import sys
+import sys, re
 import z3
 from .. import harness as H, inventory as INV, core, engine, terms as tm, modes
 from ..terms import mk
@@ -41,7 +41,52 @@ def pick_units(e):
 VECTOR_SIZES = {True: (0, 1, 3, 5), False: (0, 1, 2, 3, 4, 5, 7, 8, 9, 17)}
 
 
-def generate(inv, tb, T, quantities_of):
+_derived = {}
+
+
+def code_derived_sizes(work, T):
+    """std::vector lengths taken from the code ("derive bounds from the code"): the vector forms of Convert /
+    ConvertInPlace are compiled on their own and every integer constant c with 8 <= c <= 1024 that occurs as an operand in
+    the IR of those functions (a block size, an unroll factor, a mask c-1) yields the lengths c, c+1 and, if <= 1025, 2c:
+    an exact multiple of the block, a block plus a tail, two blocks.  The unchanged tree has no such constant."""
+    if T in _derived:
+        return _derived[T]
+    ct = CT[T]
+    body = ('std::vector<%s> v(in, in + iin[0]); PhQ::ConvertInPlace(v, static_cast<PhQ::Unit::Length>(iin[1]), static_cast<PhQ::Unit::Length>(iin[2])); '
+            'const std::vector<%s> r = PhQ::Convert(v, static_cast<PhQ::Unit::Length>(iin[1]), static_cast<PhQ::Unit::Length>(iin[2])); out[0] = r[0] + v[0];' % (ct, ct))
+    w = H.Wrapper('w_sizes_' + T, T, 1, T, 1, body, n_iin=3, flatten=False)
+    u = H.Unit(work, 'c02_sizes_' + T, ['PhQ/Unit/Length.hpp'], [w], extra_clang=['-fno-inline'], native=False)
+    sizes, consts = [], set()
+    try:
+        u.write()
+        rc, out, err = H.run_cmd(['clang++-14'] + H.CLANG_FLAGS + u.extra_clang + ['-I', H.include_dir(work), u.src, '-o', u.ll])
+        if rc == 0:
+            cur = None
+            for line in open(u.ll):
+                if line.startswith('define '):
+                    m = re.search(r'@([\w.$]+)\(', line)
+                    nm = m.group(1) if m else ''
+                    cur = nm if (('Convert' in nm and 'St6vector' in nm) or nm == w.name) else None
+                elif line.startswith('}'):
+                    cur = None
+                elif cur and not re.match(r'\s*(call|invoke|br|ret|store|load|getelementptr|%\S+ = (getelementptr|load|call|invoke|phi|bitcast|alloca))\b', line):
+                    for c in re.findall(r'\bi64 (\d+)\b', line) + re.findall(r', (\d+)\s*$', line):
+                        c = int(c)
+                        if 8 <= c + 1 <= 1024 and (c + 1) & c == 0:   # mask 2^k - 1
+                            consts.add(c + 1)
+                        elif 8 <= c <= 1024:
+                            consts.add(c)
+    except Exception:
+        pass
+    for c in sorted(consts):
+        for n in (c, c + 1, 2 * c):
+            if n <= 1025 and n not in sizes:
+                sizes.append(n)
+    _derived[T] = (sizes[:9], sorted(consts))
+    return _derived[T]
+
+
+def generate(inv, tb, T, quantities_of, work=None):
     ws, obs = [], []
     ct = CT[T]
     for q in unitdata.unit_types(tb):
@@ -79,7 +124,8 @@ def generate(inv, tb, T, quantities_of):
                     w = H.Wrapper('w_c_%s_%s%d_%s_%d_%d' % (tag, cls[:3], n, fk, f, t_), T, n, T, n, body, flatten=False)
                     ws.append(w)
                     obs.append(dict(base, id='%s %s %s<%d> [%s]' % (pid, fk, cls, n, ct), kind='container', w=w.name, n=n, f=f, t=t_))
-            for n in VECTOR_SIZES[core.tier() == 'quick']:
+            extra = code_derived_sizes(work, T)[0] if (work and q in ('Unit::Length', 'Unit::Temperature') and (f, t_) == (a, b)) else []
+            for n in list(VECTOR_SIZES[core.tier() == 'quick']) + [x for x in extra if x not in VECTOR_SIZES[core.tier() == 'quick']]:
                 for fk in ('copy', 'inplace'):
                     if fk == 'copy':
                         body = 'const std::vector<%s> v(in, in + %d); const std::vector<%s> r = PhQ::Convert(v, %s, %s); iout[0] = (long)r.size(); for (std::size_t i = 0; i < r.size() && i < %d; ++i) out[i] = r[i]; for (std::size_t i = 0; i < v.size() && i < %d; ++i) out[%d + i] = v[i];' % (
@@ -323,7 +369,7 @@ def main():
     specs = []
     total = 0
     for T in types:
-        ws, obs = generate(inv, tb, T, quantities_of)
+        ws, obs = generate(inv, tb, T, quantities_of, work)
         obs = C.filter_obs(obs)
         total += len(obs)
         byw = {w.name: w for w in ws}
@@ -344,7 +390,7 @@ def main():
                                          extra_clang=['-fno-inline']))
     results = engine.run_units(specs, worker, work)
     engine.collect(rep, results)
-    rep.bounds = {'numeric_types': types, 'obligations_generated': total, 'vector_sizes': list(VECTOR_SIZES[core.tier() == 'quick']), 'array_sizes': [1, 2, 3, 6, 9],
+    rep.bounds = {'numeric_types': types, 'obligations_generated': total, 'vector_sizes': list(VECTOR_SIZES[core.tier() == 'quick']), 'vector_sizes_derived_from_code': {t: {'constants_in_vector_forms': _derived[t][1], 'lengths_added_for_Length_and_Temperature': _derived[t][0]} for t in _derived}, 'array_sizes': [1, 2, 3, 6, 9],
                   'unit_pairs': 'scalar run-time path: all ordered pairs of every type (both units symbolic); containers: representative pairs per type (quick: non-standard/non-standard and non-standard/standard; thorough adds standard/non-standard and same unit); quantities: one non-standard unit per quantity',
                   'inputs': 'all bit patterns of every component'}
     rep.assumptions = [
